@@ -1107,7 +1107,7 @@ def run(ctx):
     bad = [c for c in corpus if not valid_script(c)]
     if bad: raise RuntimeError('corpus case is not a valid program: ' + bad[0][:200])
     feed(d, corpus, 'corpus')
-    n = 1500 if quick else 10000
+    n = 1300 if quick else 10000
     size = 200 if quick else 5000
     t0 = time.time()
     # deep structures first: chain lengths around a plausible "depth cap" and far beyond what the repository's own tests build
